@@ -218,6 +218,14 @@ func SingleConstructs() []*ref.Pat {
 		out = append(out, &ref.Pat{K: "lit", R: r})
 		out = append(out, &ref.Pat{K: "lit", R: r, Spell: 2})
 	}
+	for _, r := range []rune{0x80, 0x81, 0xA0, 0xC0, 0xE9, 0xFE, 0xFF} {
+		// two-digit escapes above ASCII, alone, in a bracket group and as range end points
+		out = append(out, &ref.Pat{K: "lit", R: r, Spell: 2})
+		out = append(out, &ref.Pat{K: "br", Items: []*ref.Pat{{K: "lit", R: r, Spell: 2}, {K: "lit", R: 'a'}}})
+		if r < 0xFF {
+			out = append(out, &ref.Pat{K: "br", Items: []*ref.Pat{{K: "rng", R: r, R2: 0xFF, Spell: 2}}})
+		}
+	}
 	for _, r := range []rune{0x41, 0x7F, 0x80, 0xE9, 0xFF, 0x100, 0xFFFF, 0x4E2D, 0x10000, 0x1F600, 0x10FFFF} {
 		out = append(out, &ref.Pat{K: "lit", R: r, Spell: 4}, &ref.Pat{K: "lit", R: r, Spell: 8})
 		for n := 5; n <= 7; n++ {
